@@ -60,7 +60,7 @@ def run(ctx, info):
     jobs = []
     focus = sorted(set(pinned) - set(now))          # an optimizer that left the set is searched harder
     for nm in pinned:
-        reps = 1 if ctx.quick else 3
+        reps = 1 if ctx.quick else 6
         if nm in focus: reps = 6
         for _ in range(reps):
             for obj, mc in (("sphere", 40 if (ctx.quick and nm not in focus) else 70), ("step", 8)):
